@@ -599,4 +599,247 @@ theorem scan_rows (hE : EnvOK e L nextl0) (f : Nat) (ih : ∀ f', f = f' + 1 →
 
 end main
 
+section root
+variable {e : Env} {L : Array Int} {nextl0 : Int}
+
+theorem scanAt_all (hE : EnvOK e L nextl0) : ∀ f, ScanAt e L nextl0 f
+  | 0 => scan_rows hE 0 (fun f' h => by omega)
+  | f + 1 => scan_rows hE (f + 1) (fun f' h => by
+      have : f' = f := by omega
+      subst this; exact scanAt_all hE f')
+
+/-- between two nonzeros of the column: the stack is empty, every discovered representative is finished -/
+structure Root (post : List Nat) (st : St) : Prop where
+  ok : StOK e L nextl0 st
+  pok : PostOK e post st
+  fin : ∀ t : Nat, (t : Int) < e.jcol → disc st t → t ∈ post
+
+/-- how `segrep` grew -/
+structure SegExt (st : St) (post : List Nat) (st' : St) (post' : List Nat) : Prop where
+  new : ∃ nw, post' = nw ++ post ∧ st'.nseg = st.nseg + nw.length ∧
+    slice st'.segrep st.nseg st'.nseg = nw.reverse.map Int.ofNat
+  segFrame : ∀ x, x < st.nseg → rd st'.segrep x = rd st.segrep x
+
+theorem SegExt.refl (st : St) (post : List Nat) : SegExt st post st post :=
+  ⟨⟨[], by simp, by simp, by simp [slice_nil]⟩, fun _ _ => rfl⟩
+
+theorem SegExt.of_mild {st st1 : St} {post : List Nat} (hm : Mild st st1) : SegExt st post st1 post :=
+  ⟨⟨[], by simp, by simp [hm.nseg], by simp [hm.nseg, slice_nil]⟩, fun _ _ => by rw [hm.segrep]⟩
+
+theorem SegExt.trans {st st1 st2 : St} {post post1 post2 : List Nat} (h0 : 0 ≤ st.nseg)
+    (h1 : SegExt st post st1 post1) (h2 : SegExt st1 post1 st2 post2) : SegExt st post st2 post2 := by
+  obtain ⟨n1, a1, a2, a3⟩ := h1.new
+  obtain ⟨n2, b1, b2, b3⟩ := h2.new
+  refine ⟨⟨n2 ++ n1, by rw [b1, a1, append_assoc], by rw [b2, a2, length_append]; push_cast; omega, ?_⟩, ?_⟩
+  · rw [slice_append st2.segrep h0 (show st.nseg ≤ st1.nseg by omega) (show st1.nseg ≤ st2.nseg by omega), b3]
+    have : slice st2.segrep st.nseg st1.nseg = slice st1.segrep st.nseg st1.nseg :=
+      slice_congr h0 (fun y _ hy => h2.segFrame y hy)
+    rw [this, a3]; simp
+  · intro x hx
+    rw [h2.segFrame x (by omega), h1.segFrame x hx]
+
+theorem Root.of_mild {st st1 : St} {post : List Nat} (hm : Mild st st1) (h : Root (e := e) (L := L) (nextl0 := nextl0) post st)
+    (hok : StOK e L nextl0 st1) : Root (e := e) (L := L) (nextl0 := nextl0) post st1 :=
+  ⟨hok, h.pok.of_mild hm, fun t ht hd => h.fin t ht ((hm.disc _).mp hd)⟩
+
+/-- one nonzero of the column: the machine does what one recursive visit from its pivot column does -/
+theorem rootStep_spec (hE : EnvOK e L nextl0) {fuel : Nat} (hfuel : (e.jcol.toNat + 1) * stepK nextl0 ≤ fuel)
+    {st : St} {post : List Nat} (hR : Root (e := e) (L := L) (nextl0 := nextl0) post st)
+    {krow : Int} (hr0 : 0 ≤ krow) (hr1 : krow < e.m) :
+    ∃ st' post', rootStep e fuel st krow = some st' ∧
+      Root (e := e) (L := L) (nextl0 := nextl0) post' st' ∧ SegExt st post st' post' ∧
+      post' = (rootCols e [krow]).foldl (fun acc k => dfsVisit (adjG e L) e.jcol.toNat (repN e k) acc) post := by
+  have hE1 : (EMPTY : Int) = -1 := rfl
+  have hst := hR.ok
+  have hpo := hR.pok
+  have hfin : rd e.perm_r krow ≠ EMPTY → disc st (repOf e (rd e.perm_r krow)) →
+      dfsVisit (adjG e L) e.jcol.toNat (repN e (rd e.perm_r krow).toNat) post = post := by
+    intro hkp hd
+    have hkpr : 0 ≤ rd e.perm_r krow ∧ rd e.perm_r krow < e.jcol := by
+      rcases hE.perm _ hr0 hr1 with h | h
+      · exact absurd h hkp
+      · exact h
+    have hc := repN_cast hE hkpr.1 hkpr.2
+    have hrep := hE.rep _ hkpr.1 hkpr.2
+    exact dfsVisit_mem _ _ (hR.fin _ (by rw [hc]; exact hrep.2.1) (by rw [hc]; exact hd))
+  have hpost : ∀ post' : List Nat, (rd e.perm_r krow = EMPTY → post' = post) →
+      (rd e.perm_r krow ≠ EMPTY → post' = dfsVisit (adjG e L) e.jcol.toNat (repN e (rd e.perm_r krow).toNat) post) →
+      post' = (rootCols e [krow]).foldl (fun acc k => dfsVisit (adjG e L) e.jcol.toNat (repN e k) acc) post := by
+    intro post' h1 h2
+    by_cases hkp : rd e.perm_r krow = EMPTY
+    · simp [rootCols, hkp, h1 hkp]
+    · simp [rootCols, hkp, h2 hkp]
+  unfold rootStep
+  by_cases hmk : mk2 e st krow = e.jcol
+  · simp only [hmk, if_true]
+    exact ⟨st, post, rfl, hR, SegExt.refl _ _, hpost _ (fun _ => rfl) (fun hkp => (hfin hkp (hst.markRep _ hr0 hr1 hmk hkp)).symm)⟩
+  · simp only [hmk, if_false]
+    by_cases hkp : rd e.perm_r krow = EMPTY
+    · simp only [hkp, if_true]
+      have hm : Mild st (appendRow e ({ st with marker := wr st.marker (2 * e.m + krow) e.jcol }) krow (mk2 e st krow)) := by
+        refine ⟨?_, ?_, ?_, ?_, ?_⟩
+        · unfold appendRow; split <;> rfl
+        · unfold appendRow; split <;> rfl
+        · unfold appendRow; split <;> rfl
+        · unfold appendRow; split <;> rfl
+        · intro t; unfold appendRow; split <;> exact Iff.rfl
+      exact ⟨_, post, rfl, hR.of_mild hm ((hst.mark krow (fun h => absurd hkp h)).append krow _), SegExt.of_mild hm,
+        hpost _ (fun _ => rfl) (fun h => absurd hkp h)⟩
+    · simp only [hkp, if_false]
+      by_cases hdc : disc st (repOf e (rd e.perm_r krow))
+      · have hdc' : rd st.repfnz (repOf e (rd e.perm_r krow)) ≠ EMPTY := hdc
+        simp only [hdc', ne_eq, not_false_eq_true, if_true]
+        have hd' : disc ({ st with marker := wr st.marker (2 * e.m + krow) e.jcol }) (repOf e (rd e.perm_r krow)) := hdc
+        have hm : Mild st (lowerFnz ({ st with marker := wr st.marker (2 * e.m + krow) e.jcol }) (repOf e (rd e.perm_r krow))
+            (rd st.repfnz (repOf e (rd e.perm_r krow))) (rd e.perm_r krow)) := by
+          refine ⟨?_, ?_, ?_, ?_, ?_⟩
+          · unfold lowerFnz; split <;> rfl
+          · unfold lowerFnz; split <;> rfl
+          · unfold lowerFnz; split <;> rfl
+          · unfold lowerFnz; split <;> rfl
+          · intro t; exact lowerFnz_disc hkp hd' t
+        exact ⟨_, post, rfl, hR.of_mild hm ((hst.mark krow (fun _ => hdc)).lower hkp hd'), SegExt.of_mild hm,
+          hpost _ (fun h => absurd h hkp) (fun _ => (hfin hkp hdc).symm)⟩
+      · have hdisc : rd st.repfnz (repOf e (rd e.perm_r krow)) = EMPTY := by
+          unfold disc at hdc; exact not_not.mp hdc
+        simp only [hdisc, ne_eq, not_true_eq_false, if_false]
+        have hkpr : 0 ≤ rd e.perm_r krow ∧ rd e.perm_r krow < e.jcol := by
+          rcases hE.perm _ hr0 hr1 with h | h
+          · exact absurd h hkp
+          · exact h
+        obtain ⟨hrep1, hrep2, hrep3⟩ := hE.rep _ hkpr.1 hkpr.2
+        obtain ⟨c, hc⟩ := Int.eq_ofNat_of_zero_le (show 0 ≤ repOf e (rd e.perm_r krow) by omega)
+        have hcc : repN e (rd e.perm_r krow).toNat = c := by
+          have := repN_cast hE hkpr.1 hkpr.2
+          rw [hc] at this; exact_mod_cast this
+        rw [hc] at hdisc hrep1 hrep2 hrep3 ⊢
+        generalize hkpdef : rd e.perm_r krow = kp at *
+        generalize hst1def : ({ st with marker := wr st.marker (2 * e.m + krow) e.jcol, parent := wr st.parent (c : Int) EMPTY, repfnz := wr st.repfnz (c : Int) kp } : St) = st1
+        have e_rep : st1.repfnz = wr st.repfnz (c : Int) kp := by rw [← hst1def]
+        have e_par : st1.parent = wr st.parent (c : Int) EMPTY := by rw [← hst1def]
+        have e_xpl : st1.xplore = st.xplore := by rw [← hst1def]
+        have e_seg : st1.segrep = st.segrep := by rw [← hst1def]
+        have e_nseg : st1.nseg = st.nseg := by rw [← hst1def]
+        have e_lsub : st1.lsub = st.lsub := by rw [← hst1def]
+        have e_nextl : st1.nextl = st.nextl := by rw [← hst1def]
+        have e_mark : st1.marker = wr st.marker (2 * e.m + krow) e.jcol := by rw [← hst1def]
+        have hd1 : ∀ t, disc st t → disc st1 t := by
+          intro t ht
+          unfold disc; rw [e_rep, rd_wr_ne (fun h => ht (by rw [h]; exact hdisc))]; exact ht
+        have hd1c : disc st1 (c : Int) := by
+          unfold disc; rw [e_rep, rd_wr_eq (by omega) (by have := hst.szRep; omega), hE1]; omega
+        have hd1' : ∀ t, disc st1 t → t = (c : Int) ∨ disc st t := by
+          intro t ht
+          by_cases h : t = (c : Int)
+          · exact Or.inl h
+          · right; unfold disc at ht ⊢; rwa [e_rep, rd_wr_ne h] at ht
+        have hst1 : StOK e L nextl0 st1 :=
+          { pre := by rw [e_lsub]; exact hst.pre
+            nextl := by rw [e_nextl]; exact hst.nextl
+            szRep := by rw [e_rep, size_wr]; exact hst.szRep
+            szPar := by rw [e_par, size_wr]; exact hst.szPar
+            szXpl := by rw [e_xpl]; exact hst.szXpl
+            szMark := by rw [e_mark, size_wr]; exact hst.szMark
+            nseg0 := by rw [e_nseg]; exact hst.nseg0
+            markRep := by
+              intro r r0 r1 hm hp
+              by_cases hrr : r = krow
+              · rw [hrr, hkpdef, hc]; exact hd1c
+              · refine hd1 _ (hst.markRep r r0 r1 ?_ hp)
+                unfold mk2 at hm ⊢; rwa [e_mark, rd_wr_ne (by omega)] at hm }
+        have hpo1 : PostOK e post st1 :=
+          ⟨hpo.nodup, hpo.lt, fun t ht => hd1 _ (hpo.fin t ht), by rw [e_nseg, e_seg]; exact hpo.cap⟩
+        obtain ⟨hc0, hc1, hc2, _⟩ := hE.lists (c : Int) (by omega) hrep2 hrep3
+        have hj : (e.jcol.toNat : Int) = e.jcol := Int.toNat_of_nonneg hE.jcol0
+        obtain ⟨j', hj'⟩ : ∃ j', e.jcol.toNat = j' + 1 := ⟨e.jcol.toNat - 1, by omega⟩
+        obtain ⟨nc, st2, post2, hrunc, hpost2, hres2⟩ :=
+          scanAt_all hE j' (rd e.xprune c - rd e.xlsub c).toNat c (rd e.xlsub c) st1 post hrep2 (by omega) hrep3
+            (le_refl _) (by omega) hst1 hpo1 hd1c
+            (fun t ht hd => by
+              rcases hd1' _ hd with h | h
+              · right; exact_mod_cast (le_of_eq h)
+              · exact Or.inl (hR.fin t ht h))
+        obtain ⟨nwc, hnw1, hnw2, hnw3, hnw4⟩ := hres2.new
+        have hcpost : c ∉ post := fun h => by have := hpo.fin c h; exact this hdisc
+        have hcpost2 : c ∉ post2 := by
+          rw [hnw1]; intro h
+          rcases mem_append.mp h with h | h
+          · exact hnw2 c h hd1c
+          · exact hcpost h
+        have hlen : post2.length + 1 ≤ e.jcol.toNat := by
+          have := nodup_lt_length (l := c :: post2) (n := e.jcol.toNat) (nodup_cons.mpr ⟨hcpost2, hres2.pok.nodup⟩)
+            (by
+              intro t ht
+              rcases mem_cons.mp ht with rfl | ht
+              · omega
+              · have := hres2.pok.lt t ht; omega)
+          simpa using this
+        have hnsegr : 0 ≤ st2.nseg ∧ st2.nseg < st2.segrep.size := by
+          have h1 := hres2.pok.cap
+          have h2 := hres2.ok.nseg0
+          exact ⟨h2, by omega⟩
+        have hpar : rd st2.parent (c : Int) = EMPTY := by
+          rw [(hres2.frame (c : Int) (le_refl _)).1, e_par, rd_wr_eq (by omega) (by have := hst.szPar; omega)]
+        generalize hst3def : ({ st2 with segrep := wr st2.segrep st2.nseg (c : Int), nseg := st2.nseg + 1 } : St) = st3
+        have hpop : ∀ F, run e (F + 1) ⟨(c : Int), rd e.xprune c, rd e.xprune c, st2⟩ = some st3 := by
+          intro F
+          simp [run, step, popStep, hpar, hst3def]
+        have e3_rep : st3.repfnz = st2.repfnz := by rw [← hst3def]
+        have e3_seg : st3.segrep = wr st2.segrep st2.nseg (c : Int) := by rw [← hst3def]
+        have e3_nseg : st3.nseg = st2.nseg + 1 := by rw [← hst3def]
+        have hd3 : ∀ t, disc st3 t ↔ disc st2 t := fun t => by unfold disc; rw [e3_rep]
+        have hst3 : StOK e L nextl0 st3 := by
+          rw [← hst3def]
+          exact { pre := hres2.ok.pre, nextl := hres2.ok.nextl, szRep := hres2.ok.szRep, szPar := hres2.ok.szPar,
+                  szXpl := hres2.ok.szXpl, szMark := hres2.ok.szMark, markRep := hres2.ok.markRep,
+                  nseg0 := by have := hres2.ok.nseg0; show 0 ≤ st2.nseg + 1; omega }
+        have hpo3 : PostOK e (c :: post2) st3 :=
+          { nodup := nodup_cons.mpr ⟨hcpost2, hres2.pok.nodup⟩
+            lt := by
+              intro t ht
+              rcases mem_cons.mp ht with rfl | ht
+              · exact hrep2
+              · exact hres2.pok.lt t ht
+            fin := by
+              intro t ht
+              rw [hd3]
+              rcases mem_cons.mp ht with rfl | ht
+              · exact hres2.mono _ hd1c
+              · exact hres2.pok.fin t ht
+            cap := by
+              have := hres2.pok.cap
+              rw [e3_nseg, e3_seg, size_wr, length_cons]; push_cast; omega }
+        have hfuel' : nc + 1 ≤ fuel := by
+          have b2 := hres2.bound
+          have hK : (rd e.xprune c - rd e.xlsub c).toNat + 2 ≤ stepK nextl0 := by unfold stepK; omega
+          have h3 : post2.length * stepK nextl0 + stepK nextl0 ≤ e.jcol.toNat * stepK nextl0 := by
+            rw [← Nat.succ_mul]; exact Nat.mul_le_mul_right _ hlen
+          rw [Nat.succ_mul] at hfuel
+          omega
+        refine ⟨st3, c :: post2, ?_, ⟨hst3, hpo3, ?_⟩, ⟨⟨c :: nwc, by rw [hnw1]; rfl, ?_, ?_⟩, ?_⟩, ?_⟩
+        · obtain ⟨F, hF⟩ : ∃ F, fuel = nc + (F + 1) := ⟨fuel - nc - 1, by omega⟩
+          rw [hF, hrunc, hpop]
+        · intro t ht hd
+          rcases hres2.newFin t ht ((hd3 _).mp hd) with h | h
+          · rcases hd1' _ h with h | h
+            · have : t = c := by exact_mod_cast h
+              rw [this]; exact mem_cons_self
+            · rw [hnw1]; exact mem_cons_of_mem _ (mem_append_right _ (hR.fin t ht h))
+          · exact mem_cons_of_mem _ h
+        · rw [e3_nseg, hnw3, e_nseg, length_cons]; push_cast; omega
+        · have hn0 : 0 ≤ st.nseg := hst.nseg0
+          have hn2 : st2.nseg = st.nseg + nwc.length := by rw [hnw3, e_nseg]
+          rw [e3_nseg, slice_snoc _ hn0 (by omega), e3_seg, rd_wr_eq hnsegr.1 hnsegr.2]
+          have h2 : slice (wr st2.segrep st2.nseg (c : Int)) st.nseg st2.nseg = slice st2.segrep st.nseg st2.nseg :=
+            slice_congr hn0 (fun y _ hy => rd_wr_ne (by omega))
+          rw [h2, ← e_nseg, hnw4]
+          simp
+        · intro y hy
+          rw [e3_seg, rd_wr_ne (by rw [hnw3, e_nseg]; omega), hres2.segFrame y (by rw [e_nseg]; exact hy), e_seg]
+        · refine hpost _ (fun h => absurd h hkp) (fun _ => ?_)
+          rw [hcc, hj', hpost2, ← adjG_eq]
+          simp [dfsVisit, hcpost]
+
+end root
+
 end Slu.ColDfs
